@@ -39,26 +39,37 @@ theorem scan_fresh_spec {E : Env} {R : Run} {rn : Str} {ch : List Node} (hwf : w
     obtain ⟨e, _, rfl⟩ := hkv
     rfl
 
-/-- the same for a scan that finds an admissible cache file (C09 / C10) -/
+/-- the same for a scan that finds an admissible cache file (C09 / C10), MD5 collision-free on
+the contents that occur (`HistoryOk`) -/
+theorem scan_spec_on {E : Env} (hE : EnvBase E) {R : Run} {rn : Str} {ch : List Node} (hwf : wfDir ch = true)
+    {prev : Option Str} (hH : HistoryOk E R.pats ch prev)
+    {d : Json.ReportData} {bytes : Str} (h : scan E R (.dir rn ch) prev = .ok (d, bytes)) :
+    ∃ sfiles cb, (scanPath (oracles E R.pats) (.dir rn ch)).result = .ok sfiles ∧
+      (∀ kv ∈ sfiles, kv.1 = kv.2.path) ∧
+      Codebase.build ((sfiles.map (fun kv => fileOfSel kv.2)).map cbEntry) = .ok cb ∧
+      d = mkReport E R cb (sfiles.map (fun kv => fileOfSel kv.2)) ∧ bytes = Json.write true d := by
+  rw [scan_eq_fresh_on hE hwf hH] at h
+  exact scan_fresh_spec hwf h
+
+/-- the idealised form (global injectivity; used by `Props/C09sel.lean`) -/
 theorem scan_spec {E : Env} (hE : EnvOk E) {R : Run} {rn : Str} {ch : List Node} (hwf : wfDir ch = true)
     {prev : Option Str} (hprev : CacheOk E prev)
     {d : Json.ReportData} {bytes : Str} (h : scan E R (.dir rn ch) prev = .ok (d, bytes)) :
     ∃ sfiles cb, (scanPath (oracles E R.pats) (.dir rn ch)).result = .ok sfiles ∧
       (∀ kv ∈ sfiles, kv.1 = kv.2.path) ∧
       Codebase.build ((sfiles.map (fun kv => fileOfSel kv.2)).map cbEntry) = .ok cb ∧
-      d = mkReport E R cb (sfiles.map (fun kv => fileOfSel kv.2)) ∧ bytes = Json.write true d := by
-  rw [scan_eq_fresh hE hprev] at h
-  exact scan_fresh_spec hwf h
+      d = mkReport E R cb (sfiles.map (fun kv => fileOfSel kv.2)) ∧ bytes = Json.write true d :=
+  scan_spec_on hE.toEnvBase hwf (HistoryOk.of_injective hE hprev R.pats ch) h
 
 /-- **the report of a scan satisfies the hypotheses of C08** and the reader of the cache gives its
-rows back -/
-theorem scan_report_facts {E : Env} (hE : EnvOk E) {R : Run} (hR : RunOk R) {rn : Str} {ch : List Node}
-    (hT : TreeOk ch) {prev : Option Str} (hprev : CacheOk E prev)
+rows back; `hinv` is the invariant of C09 for the cache file the scan found (`inv_of_cacheOk`,
+`InvCOn.inv (invOn_of_cacheOkOn …)`; no assumption on the checksum) -/
+theorem scan_report_facts_inv {E : Env} (hE : EnvBase E) {R : Run} (hR : RunOk R) {rn : Str} {ch : List Node}
+    (hT : TreeOk ch) {prev : Option Str} (hinvC : InvC E prev)
     {d : Json.ReportData} {bytes : Str} (h : scan E R (.dir rn ch) prev = .ok (d, bytes)) :
     Json.GoodReport d ∧ Json.DistinctKeys d ∧ C08.Reachable buildJ profileOf d ∧
       bytes = Json.write true d ∧
       readCache (some bytes) = .doc (some E.version) (rowsOfFiles d.files) := by
-  have hinvC := inv_of_cacheOk hE hprev
   have hread := (inv_of_prefix hE hR hT hinvC h (List.prefix_refl _)).2 rfl
   obtain ⟨files, cb, hf, hcb, rfl, rfl⟩ := scan_ok_iff.1 h
   have hrows : Cache.HonestRows (cacheParams E) (scanRows E R.pats (.dir rn ch) prev) :=
@@ -73,6 +84,30 @@ theorem scan_report_facts {E : Env} (hE : EnvOk E) {R : Run} (hR : RunOk R) {rn 
   · rw [hread]
     show _ = Cache.CacheFile.doc (some E.version) (rowsOfFiles files)
     rw [rowsOfFiles_entriesOf hf]
+
+/-- the invariant of C09 from `HistoryOk` (the set `U` is forgotten) -/
+theorem HistoryOk.inv {E : Env} (hE : EnvBase E) {pats : List Gi.Pat} {ch : List Node} {prev : Option Str}
+    (hH : HistoryOk E pats ch prev) : InvC E prev := by
+  rcases hH with rfl | ⟨U, _, _, hprev⟩
+  · exact Or.inr (by rintro ⟨es, h⟩; cases h)
+  · exact (invOn_of_cacheOkOn hE hprev).inv
+
+theorem scan_report_facts_on {E : Env} (hE : EnvBase E) {R : Run} (hR : RunOk R) {rn : Str} {ch : List Node}
+    (hT : TreeOk ch) {prev : Option Str} (hH : HistoryOk E R.pats ch prev)
+    {d : Json.ReportData} {bytes : Str} (h : scan E R (.dir rn ch) prev = .ok (d, bytes)) :
+    Json.GoodReport d ∧ Json.DistinctKeys d ∧ C08.Reachable buildJ profileOf d ∧
+      bytes = Json.write true d ∧
+      readCache (some bytes) = .doc (some E.version) (rowsOfFiles d.files) :=
+  scan_report_facts_inv hE hR hT (hH.inv hE) h
+
+/-- the idealised form (used by `Lemmas/SelectCacheWritten.lean`) -/
+theorem scan_report_facts {E : Env} (hE : EnvOk E) {R : Run} (hR : RunOk R) {rn : Str} {ch : List Node}
+    (hT : TreeOk ch) {prev : Option Str} (hprev : CacheOk E prev)
+    {d : Json.ReportData} {bytes : Str} (h : scan E R (.dir rn ch) prev = .ok (d, bytes)) :
+    Json.GoodReport d ∧ Json.DistinctKeys d ∧ C08.Reachable buildJ profileOf d ∧
+      bytes = Json.write true d ∧
+      readCache (some bytes) = .doc (some E.version) (rowsOfFiles d.files) :=
+  scan_report_facts_inv hE.toEnvBase hR hT (inv_of_cacheOk hE hprev) h
 
 /-! ## C07 in the words of the report -/
 
